@@ -733,6 +733,11 @@ class Project(MessageHandler):
         if not self.attributes.get("start") or not self.attributes.get("end"):
             return
 
+        # The end the user declared stays the anchor of backward tasks that have no deadline of
+        # their own, however far the slot tables are extended below
+        if getattr(self, "_declaredEnd", None) is None:
+            self._declaredEnd = self.attributes["end"]
+
         # Calculate total effort and gaps needed; every scenario is scheduled on the same
         # horizon, so it must be long enough for the most demanding one
         total_days_needed: int = 0
@@ -810,6 +815,11 @@ class Project(MessageHandler):
         # Extend project end if needed
         if min_end_date > self.attributes["end"]:
             self.attributes["end"] = min_end_date
+
+    def declaredEnd(self) -> Any:
+        """The project end as declared, before the scheduling horizon was extended."""
+        declared = getattr(self, "_declaredEnd", None)
+        return declared if declared is not None else self.attributes["end"]
 
     def initScoreboards(self) -> None:
         if not self.attributes["start"] or not self.attributes["end"]:
